@@ -1211,6 +1211,96 @@ Proof.
 Qed.
 End ProgProofs.
 
+(* ================================================================ when no handler touches a guard (the guards stay as they are: a constant policy), the
+   reference does not depend on what is subscribed *)
+Lemma ref_r_ext binop cmpop unop truth cval is_and (callr1 callr2 : callR) :
+  (forall f vs glob pre, callr1 f vs glob pre = callr2 f vs glob pre) ->
+  forall q lk glob r pre, ref_r binop cmpop unop truth cval is_and callr1 q lk glob r pre = ref_r binop cmpop unop truth cval is_and callr2 q lk glob r pre.
+Proof.
+  intros H q lk glob r pre. destruct r as [v|cn bc ba aa func args| |]; try reflexivity.
+  cbn [FragFun.ref_r]. destruct (FragSem.ref_e binop cmpop unop truth cval is_and func lk) as [[vf|e] lf]; [|reflexivity].
+  destruct (FragFun.ref_args binop cmpop unop truth cval is_and q args lk) as [[vs|e] la]; [|reflexivity].
+  destruct vf; try reflexivity. rewrite H. reflexivity.
+Qed.
+
+Section RefIndep.
+Variable binop : N -> val -> val -> res val.
+Variable cmpop : N -> val -> val -> res bool.
+Variable unop : N -> val -> res val.
+Variable truth : val -> bool.
+Variable cval : scalar -> val.
+Variable is_and : N -> bool.
+Variables (c1 c2 : rcfg) (G : guard -> bool) (fuel : nat) (ge : bool).
+Notation P := (fun (_ : list entry) (g : guard) => G g).
+Notation S1 := (FragProg.pref_s binop cmpop unop truth cval is_and c1 P fuel ge).
+Notation S2 := (FragProg.pref_s binop cmpop unop truth cval is_and c2 P fuel ge).
+Notation L1 := (FragProg.pref_l binop cmpop unop truth cval is_and c1 P fuel ge).
+Notation L2 := (FragProg.pref_l binop cmpop unop truth cval is_and c2 P fuel ge).
+Notation B1 := (pbody_of binop cmpop unop truth cval is_and c1 P fuel ge).
+Notation B2 := (pbody_of binop cmpop unop truth cval is_and c2 P fuel ge).
+Notation W1 := (prloop binop cmpop unop truth cval is_and c1 P fuel ge).
+Notation W2 := (prloop binop cmpop unop truth cval is_and c2 P fuel ge).
+
+Section W.
+Variables callr1 callr2 : callR.
+Hypothesis Hc : forall f vs glob pre, callr1 f vs glob pre = callr2 f vs glob pre.
+
+Definition indep_ok (s : pstmt) : Prop := forall q m sc glob r pre, S1 callr1 q m sc glob s r pre = S2 callr2 q m sc glob s r pre.
+
+Lemma indep_list u : Forall indep_ok u -> forall q m sc glob r pre, L1 callr1 q m sc glob u r pre = L2 callr2 q m sc glob u r pre.
+Proof.
+  induction 1 as [|x u Hx _ IH]; intros q m sc glob r pre; [reflexivity|].
+  rewrite (pref_l_cons binop cmpop unop truth cval is_and c1), (pref_l_cons binop cmpop unop truth cval is_and c2), Hx.
+  unfold prseq. destruct (pr_exc (S2 callr2 q m sc glob x r pre)); [reflexivity|]. rewrite IH. reflexivity.
+Qed.
+
+Lemma indep_loop n t b o : Forall indep_ok b -> Forall indep_ok o -> forall q sc glob f r pre,
+  W1 callr1 q sc glob n t b o f r pre = W2 callr2 q sc glob n t b o f r pre.
+Proof.
+  intros Fb Fo q sc glob. induction f as [|f IH]; intros r pre; [reflexivity|].
+  cbn [prloop]. unfold FragProg.pgon.
+  destruct (FragSem.ref_e binop cmpop unop truth cval is_and t (look sc glob r)) as [[vt|e] l]; [|reflexivity].
+  destruct (truth vt).
+  - rewrite (indep_list b Fb). destruct (pr_exc (L2 callr2 _ false sc glob b r _)) as [[x| |]|]; rewrite ?IH; reflexivity.
+  - rewrite (indep_list o Fo). reflexivity.
+Qed.
+
+Theorem indep_stmt : forall s, indep_ok s.
+Proof.
+  induction s using pstmt_ind'; intros q m sc glob r pre;
+    rewrite (pref_unfold binop cmpop unop truth cval is_and c1), (pref_unfold binop cmpop unop truth cval is_and c2); cbn [pbody_of];
+    rewrite ?(ref_r_ext binop cmpop unop truth cval is_and callr1 callr2 Hc); try reflexivity.
+  - (* if *)
+    destruct (FragSem.ref_e binop cmpop unop truth cval is_and t (look sc glob r)) as [[vt|e] l]; [|reflexivity].
+    destruct (truth vt); [rewrite (indep_list b H)|rewrite (indep_list o H0)]; reflexivity.
+  - (* while *)
+    rewrite (indep_loop n t b o H H0). reflexivity.
+  - (* return *)
+    destruct v as [v|]; [|reflexivity]. rewrite (ref_r_ext binop cmpop unop truth cval is_and callr1 callr2 Hc). reflexivity.
+Qed.
+End W.
+
+Lemma indep_step ptab callr1 callr2 : (forall f vs glob pre, callr1 f vs glob pre = callr2 f vs glob pre) ->
+  forall f vs glob pre, pdo_callr binop cmpop unop truth cval is_and c1 P fuel ge ptab callr1 f vs glob pre =
+                        pdo_callr binop cmpop unop truth cval is_and c2 P fuel ge ptab callr2 f vs glob pre.
+Proof.
+  intros Hc f vs glob pre. unfold pdo_callr, FragProg.pgon. destruct (ptab f) as [[ps body]|]; [|reflexivity].
+  destruct (Nat.eqb (length ps) (length vs)); [|reflexivity].
+  rewrite (indep_list callr1 callr2 body (proj2 (Forall_forall _ _) (fun s _ => indep_stmt callr1 callr2 Hc s))). reflexivity.
+Qed.
+
+Lemma indep_calls ptab : forall d f vs glob pre,
+  pcallr binop cmpop unop truth cval is_and c1 P fuel ge ptab d f vs glob pre = pcallr binop cmpop unop truth cval is_and c2 P fuel ge ptab d f vs glob pre.
+Proof. induction d as [|d IH]; intros f vs glob pre; [reflexivity|]. cbn [pcallr]. apply indep_step. exact IH. Qed.
+
+Theorem pref_module_indep d m r :
+  pref_module binop cmpop unop truth cval is_and c1 P fuel ge d m r = pref_module binop cmpop unop truth cval is_and c2 P fuel ge d m r.
+Proof.
+  unfold FragProg.pref_module.
+  rewrite (indep_list _ _ m (proj2 (Forall_forall _ _) (fun s _ => indep_stmt _ _ (indep_calls (pdefs_of m) d) s))). reflexivity.
+Qed.
+End RefIndep.
+
 (* ================================================================ the statements the properties quote *)
 Section FinalProg.
 Variable binop : N -> val -> val -> res val.
@@ -1245,4 +1335,16 @@ Qed.
 Theorem prog_stream c ge pol m d r sv : forallb psrc_t m = true ->
   filter_log c (p_log (X c pol d (pinstr_module c ge m) r sv)) = filter_log c (pr_log (RM c pol ge d m r)).
 Proof. intros Hs. exact (proj2 (proj2 (pmodule_sim binop cmpop unop truth cval is_and c pol fuel ge m Hs d r sv))). Qed.
+
+(* C03 on the fragment: as long as no handler touches a guard (the guards stay in any fixed state G), what a tracer sees for its events K does
+   not depend on which further events E are subscribed *)
+Theorem prog_projection K E (G : guard -> bool) ge m d r sv sv' : forallb psrc_t m = true -> (forall e, sub K e = true -> sub E e = true) ->
+  filter_log K (p_log (prun binop cmpop unop truth cval is_and E (fun _ g => G g) fuel d (pinstr_module E ge m) r sv)) =
+  filter_log K (p_log (prun binop cmpop unop truth cval is_and K (fun _ g => G g) fuel d (pinstr_module K ge m) r sv')).
+Proof.
+  intros Hs HKE.
+  pose proof (prog_stream K ge (fun _ g => G g) m d r sv' Hs) as HK. pose proof (prog_stream E ge (fun _ g => G g) m d r sv Hs) as HE. cbv beta in HK, HE.
+  rewrite HK. rewrite <- (filter_sub K E _ HKE), HE, (filter_sub K E _ HKE).
+  rewrite (pref_module_indep binop cmpop unop truth cval is_and E K G fuel ge d m r). reflexivity.
+Qed.
 End FinalProg.
